@@ -1,1 +1,25 @@
 // harness bodies compiled inside quinn-proto/src/token_memory_cache.rs (feature __verif-hooks)
+
+/// Native replay body for the E2 query `e2_token_cache_take` (C14), through the public `TokenStore`
+/// interface of the real `TokenMemoryCache`: `n` tokens stored for one server come out at most once each,
+/// oldest first, and then nothing; tokens of another server are not touched.
+pub fn token_cache_take_native(n: u8) -> u32 {
+    use crate::TokenStore;
+    let cache = crate::TokenMemoryCache::new(4, 8);
+    let n = n.min(8);
+    for i in 0..n {
+        cache.insert("a.example", Bytes::from(vec![i, 1, 2, 3]));
+    }
+    cache.insert("b.example", Bytes::from_static(b"other"));
+    let mut seen: Vec<Bytes> = Vec::new();
+    for i in 0..n {
+        let t = cache.take("a.example").expect("a stored token is available");
+        assert!(!seen.contains(&t), "the token store handed out the same token twice");
+        assert!(t[0] == i, "tokens come out oldest first");
+        seen.push(t);
+    }
+    assert!(cache.take("a.example").is_none(), "the token store handed out more tokens than were stored");
+    assert!(cache.take("b.example").as_deref() == Some(&b"other"[..]));
+    assert!(cache.take("b.example").is_none(), "the token store handed out the same token twice");
+    1
+}
